@@ -4,7 +4,7 @@
 (*   New{sc,opts,res,ases,bounds,qbounds,scopes,mark}  fresh exporter + provider (cache empty) *)
 (*   Env{insts, streams}                 instruments created so far and the SDK's own          *)
 (*                                       cumulative view (Reader.Collect of the same exporter) *)
-(*   Scrape{via, obs}                    one scrape (direct Collect or registry Gather) taken  *)
+(*   Scrape{via, phase, obs}             phase = reg: one scrape (direct Collect or registry Gather) taken  *)
 (*                                       in the state described by the last Env line           *)
 (*   CScrape{obs}                        a scrape taken while measurements were being recorded *)
 (*                                       (Env = the final state)                               *)
@@ -65,7 +65,18 @@ TEnv == /\ l <= Len(Trace) /\ Trace[l].ev = "Env"
         /\ env' = [env EXCEPT !.insts = Trace[l].insts]
         /\ streams' = Trace[l].streams /\ l' = l + 1 /\ UNCHANGED <<caches, nbad>>
 
-TScrape == /\ l <= Len(Trace) /\ Trace[l].ev = "Scrape"
+(* scrape before registration / after shutdown (PromModel, exporter lifecycle) *)
+TLifeScrape == /\ l <= Len(Trace) /\ Trace[l].ev = "Scrape" /\ Trace[l].phase # "reg"
+               /\ LET obs == Trace[l].obs
+                      empty == EmptyVerdict(obs)
+                      last == Judge(obs, FALSE)      \* the exposition of the last state
+                      v == IF Trace[l].phase = "unreg" \/ empty.why = "ok" \/ Unconditional(obs).why # "ok" THEN empty
+                           ELSE IF last.ok THEN [why |-> "ok", fam |-> {}] ELSE last.v IN
+                  (v.why # "ok") => Viol([line |-> l, sc |-> Trace[l].sc, via |-> Trace[l].via, why |-> v.why, fam |-> v.fam,
+                                          devs |-> {"none"}, phase |-> Trace[l].phase, panic |-> obs.panic, gerr |-> obs.gerr])
+               /\ l' = l + 1 /\ UNCHANGED <<env, streams, caches, nbad>>
+
+TScrape == /\ l <= Len(Trace) /\ Trace[l].ev = "Scrape" /\ Trace[l].phase = "reg"
            /\ LET obs == Trace[l].obs
                   j == Judge(obs, nbad >= MaxSearch) IN
               /\ caches' = j.caches
@@ -84,6 +95,6 @@ TCScrape == /\ l <= Len(Trace) /\ Trace[l].ev = "CScrape"
 
 TDone == l = Len(Trace) + 1 /\ Accepted(l) /\ UNCHANGED vars
 
-Next == TNew \/ TEnv \/ TScrape \/ TCScrape \/ TDone
+Next == TNew \/ TEnv \/ TScrape \/ TLifeScrape \/ TCScrape \/ TDone
 Spec == Init /\ [][Next]_vars
 =============================================================================
